@@ -463,6 +463,35 @@ def run_division(ctx):
                         ctx.fail(case, f"{M.__name__}.{nm}({n}, {d}) raised {type(err).__name__}: {str(err)[:100]} instead of FeatureNotSupported", ["division", f"fn:{nm}", "other-error"])
 
 
+def run_python_scalars(ctx):
+    """a plain Python number next to a constant polynomial of a narrow type: numpy treats the Python number as weakly
+    typed (NEP 50: float32 array > 0.1 compares in float32, int8 array * 3 stays int8); the comparison functions must give
+    numpy's truth values, the arithmetic functions numpy's values (known finding D62: Python numbers are converted to
+    64-bit constants first)"""
+    f32 = numpy.float32([0.1, 1.0, 0.3])
+    i8 = numpy.int8([100, -100, 7])
+    probes = [("greater", f32, 0.1), ("less", f32, 0.3), ("equal", f32, 0.1), ("not_equal", f32, 0.3), ("greater_equal", f32, 0.1),
+              ("less_equal", f32, 0.3), ("subtract", f32, 0.1), ("multiply", i8, 3), ("add", i8, 100), ("isclose", f32, 0.1)]
+    for nm, arr_, py in probes:
+        for M in (numpoly, numpy):
+            ctx.evaluations += 1
+            ctx.count("python-scalar")
+            case = {"kind": "python-scalar", "function": f"{M.__name__}.{nm}", "array": arr_.tolist(), "dtype": str(arr_.dtype), "python": py}
+            with warnings.catch_warnings():
+                warnings.simplefilter("ignore")
+                want = getattr(numpy, nm)(arr_, py)
+                try:
+                    got = getattr(M, nm)(numpoly.polynomial(arr_), py)
+                    got = got.tonumpy() if isinstance(got, numpoly.ndpoly) else got
+                except Exception as err:  # noqa: BLE001
+                    ctx.fail(case, f"{M.__name__}.{nm}(<{arr_.dtype} constants>, {py!r}) raised {type(err).__name__}: {str(err)[:100]}", ["python-scalar", f"fn:{nm}", "raises"])
+                    continue
+            got = numpy.asarray(got)
+            if got.shape != want.shape or not numpy.array_equal(got.astype(want.dtype) if got.dtype.kind == want.dtype.kind else got, want):
+                ctx.fail(case, f"{M.__name__}.{nm}(<{arr_.dtype} constants {arr_.tolist()}>, {py!r}): {got.tolist()}, numpy on the plain array gives {want.tolist()}",
+                         ["python-scalar", "weak-python-scalar", f"fn:{nm}", "value"])
+
+
 def run_inplace_division(ctx):
     """the division functions with the dividend itself as explicit output target, and the in-place operator: the values
     numpy gives for the same call on the plain array (seeded change C11-15: an aligner that hands back the caller's own
@@ -513,12 +542,17 @@ def run(ctx):
     run_model_constfns(ctx)
     run_division(ctx)
     run_inplace_division(ctx)
+    run_python_scalars(ctx)
     ctx.extra["argument_monitor"] = {"calls": monitor.calls, "mutations": monitor.events[:5]}
     ctx.sample({"function": "argmax", "array": [[3, 1, 3]], "axis": 1, "numpy": [0]})
 
 
 def replay(ctx, case):
     n = len(ctx.failures)
+    if case["kind"] == "python-scalar":
+        run_python_scalars(ctx)
+        hits = [f for f in ctx.failures[n:] if f["case"].get("function") == case["function"]]
+        return hits[0]["what"] if hits else None
     if case["kind"] == "inplace-division":
         run_inplace_division(ctx)
         return ctx.failures[n]["what"] if len(ctx.failures) > n else None
